@@ -745,3 +745,17 @@ where
     false // Never terminate. This means it is always valid to call poll_next().
   }
 }
+
+// The StatusEvented impl above names the crate-private NoKeyWrapper, so callers
+// outside the crate cannot invoke it; the verification harness needs the status
+// events of a no_key DataReader.
+#[cfg(rustdds_verif)]
+impl<D, DA> DataReader<D, DA>
+where
+  D: 'static,
+  DA: DeserializerAdapter<D> + 'static,
+{
+  pub fn verif_try_recv_status(&self) -> Option<DataReaderStatus> {
+    self.keyed_datareader.try_recv_status()
+  }
+}
